@@ -108,6 +108,13 @@ def _operand(rng, declared, want_undeclared):
     has_u = False
     if want_undeclared:
         k = rng.choice(UNDECL)
+        if declared and rng.random() < 0.3:
+            # near misses of a declared name: its bytes spelling, another case, a trailing space, a prefix
+            d0 = rng.choice(declared)
+            if isinstance(d0, str) and d0:
+                k = rng.choice([d0.encode(), d0.upper() if d0.upper() != d0 else d0 + "_", d0 + " ", d0[:-1] or "_", (d0,)])
+                if k in declared:
+                    k = "undeclared"
         pairs.insert(rng.randrange(len(pairs) + 1), (k, _value(rng)))
         has_u = True
     return pairs, has_u
